@@ -47,6 +47,46 @@ impl<T> Mutex<T> {
         report(Event::AfterLock);
         r
     }
+
+    pub fn try_lock(&self) -> std::sync::TryLockResult<MutexGuard<'_, T>> {
+        use std::sync::TryLockError;
+        report(Event::BeforeLock);
+        match self.0.try_lock() {
+            Ok(g) => {
+                report(Event::AfterLock);
+                Ok(MutexGuard(Some(g)))
+            }
+            Err(TryLockError::Poisoned(p)) => {
+                report(Event::AfterLock);
+                Err(TryLockError::Poisoned(PoisonError::new(MutexGuard(Some(p.into_inner())))))
+            }
+            Err(TryLockError::WouldBlock) => Err(TryLockError::WouldBlock),
+        }
+    }
+
+    pub fn is_poisoned(&self) -> bool {
+        self.0.is_poisoned()
+    }
+
+    pub fn get_mut(&mut self) -> LockResult<&mut T> {
+        self.0.get_mut()
+    }
+
+    pub fn into_inner(self) -> LockResult<T> {
+        self.0.into_inner()
+    }
+}
+
+impl<T: Default> Default for Mutex<T> {
+    fn default() -> Self {
+        Mutex::new(T::default())
+    }
+}
+
+impl<T: std::fmt::Debug> std::fmt::Debug for Mutex<T> {
+    fn fmt(&self, f: &mut std::fmt::Formatter<'_>) -> std::fmt::Result {
+        self.0.fmt(f)
+    }
 }
 
 impl<T> Deref for MutexGuard<'_, T> {
